@@ -68,7 +68,63 @@ func runRandomL1(rep *Report, tt *termTable, seed uint64, firstID, n, length int
 // c11Step: every fourth step is a proposal by the RIGHT proposer at the RIGHT index whose L2 block
 // number is a boundary value: 0 (legal only as the first output), the previous number, one less,
 // one more, 2^64-1 (after which nothing can be proposed).  Otherwise the generic random step.
+// resubmitExact submits the message of op k of the case once more, byte for byte (same signer,
+// index, L2 block number, root), at the current block time.
+func resubmitExact(sc *L1Scenario, k int) ExecResult {
+	o := sc.Case.Ops[k]
+	return sc.Case.Do(sc.op(o))
+}
+
+// resubmitStored proposes a STORED output of bridge b once more, byte for byte, by the current proposer.
+func resubmitStored(sc *L1Scenario, b, idx uint64) {
+	e := sc.Env
+	st, err := e.K.GetOutputProposal(e.Ctx, b, idx)
+	prop, _, _, ok := sc.Config(b)
+	if err != nil || !ok {
+		return
+	}
+	sc.reg(prop)
+	sc.Case.Do(sc.op(L1Op{Kind: "propose", Sender: prop, Bridge: b, Idx: idx, L2: st.L2BlockNumber, Root: st.OutputRoot}))
+}
+
+// afterStep: exact resubmission of what has just been submitted - accepted proposals (once or
+// twice), accepted deletes, rejected proposals / deletes - and of older stored outputs.
+func afterStep(sc *L1Scenario, from int) {
+	r := sc.R
+	for k := from; k < len(sc.Case.Ops) && k < from+2; k++ {
+		o, ok := sc.Case.Ops[k], sc.Case.Results[k].OK
+		switch {
+		case o.Kind == "propose" && ok && r.Chance(40):
+			resubmitExact(sc, k)
+			if r.Chance(40) {
+				if r.Bool() {
+					sc.Advance(sec)
+				}
+				resubmitExact(sc, k)
+			}
+		case o.Kind == "delete" && ok && r.Chance(50):
+			resubmitExact(sc, k)
+		case (o.Kind == "propose" || o.Kind == "delete") && !ok && r.Chance(15):
+			resubmitExact(sc, k)
+		}
+	}
+	if r.Chance(6) {
+		if ex := sc.existingBridges(); len(ex) > 0 {
+			b := ex[r.Intn(len(ex))]
+			if next, _ := sc.Env.K.GetNextOutputIndex(sc.Env.Ctx, b); next > 1 {
+				resubmitStored(sc, b, 1+uint64(r.Intn(int(next-1))))
+			}
+		}
+	}
+}
+
 func c11Step(sc *L1Scenario) {
+	from := len(sc.Case.Ops)
+	c11StepInner(sc)
+	afterStep(sc, from)
+}
+
+func c11StepInner(sc *L1Scenario) {
 	e, r := sc.Env, sc.R
 	ex := sc.existingBridges()
 	if len(ex) == 0 || !r.Chance(25) {
@@ -171,6 +227,17 @@ func c11Alphabet() []c11Sym {
 		{"d1@1x", 0, del(1, user(4), 1)},         // challenger of the OTHER bridge
 		{"p1low", 0, prop(1, 1, 0, -1, 7)},       // lower L2 block number
 		{"d1@1+1s", sec, del(1, user(2), 1)},     // challenger deletes from 1 one second later (partly final log)
+		{"p1again", 0, func(sc *L1Scenario) L1Op { // the NEWEST stored output of bridge 1 once more, byte for byte
+			e := sc.Env
+			next, _ := e.K.GetNextOutputIndex(e.Ctx, 1)
+			o := L1Op{Kind: "propose", Sender: e.User(1).Str, Bridge: 1, Idx: next - 1, L2: 0, Root: make([]byte, 32)}
+			if next > 1 {
+				if st, err := e.K.GetOutputProposal(e.Ctx, 1, next-1); err == nil {
+					o.L2, o.Root = st.L2BlockNumber, st.OutputRoot
+				}
+			}
+			return sc.op(o)
+		}},
 		{"p1zero", 0, propAbs(1, 1, 0, 8)},                 // L2 block 0 (legal at index 1 only; then p1eq / p1low / p1zero must fail)
 		{"p1max", 0, propAbs(1, 1, ^uint64(0), 9)},         // L2 block 2^64-1: nothing can follow it
 	}
@@ -265,21 +332,34 @@ func genC11(seed uint64, tier, outdir string) *Report {
 	interest := []string{"propose", "delete"}
 	tt := newTermTable()
 	// exhaustive scripts first: their (short) histories are the first to be reported
-	first := alphabet
-	if tier == "thorough" { // depth 4 without the two most redundant rejections (p1stale, d1@1x)
-		first = nil
+	pick := func(drop map[string]bool, keep []string) []c11Sym {
+		var out []c11Sym
 		for _, s := range alphabet {
-			if s.Name != "p1stale" && s.Name != "d1@1x" {
-				first = append(first, s)
+			if drop != nil && !drop[s.Name] {
+				out = append(out, s)
 			}
 		}
+		for _, n := range keep {
+			for _, s := range alphabet {
+				if s.Name == n {
+					out = append(out, s)
+				}
+			}
+		}
+		return out
+	}
+	// quick: 15 symbols (a lower L2 block number is left to the random proposer); thorough depth 4: 13
+	first := pick(map[string]bool{"p1low": true}, nil)
+	if tier == "thorough" {
+		first = pick(map[string]bool{"p1low": true, "p1stale": true, "d1@1x": true}, nil)
 	}
 	texts := genC11Exhaustive(rep, tt, seed, 1, first, depth)
 	if tier == "thorough" {
-		// deeper, over the core alphabet: p1, p1+1s, p1eq, p1zero, d1@2+1s, d1@1+1s
-		core := []c11Sym{alphabet[0], alphabet[1], alphabet[2], alphabet[13], alphabet[7], alphabet[12]}
+		// deeper, over a core alphabet
+		core := pick(nil, []string{"p1", "p1+1s", "p1again", "p1zero", "d1@2+1s", "d1@1+1s"})
 		texts = append(texts, genC11Exhaustive(rep, tt, seed, 1+len(texts), core, 5)...)
 	}
+	l1StepHook = func(sc *L1Scenario) { from := len(sc.Case.Ops); sc.RandomStep(); afterStep(sc, from) }
 	texts = append(texts, runRandomL1(rep, tt, seed, 1+len(texts), nA, length, w, nil, mons, interest)...)
 	l1StepHook = c11Step
 	texts = append(texts, runRandomL1(rep, tt, seed+7777, 1+len(texts), nB, length, w2, twoBridgeSetup(2*sec, 5*sec), mons, interest)...)
